@@ -519,7 +519,7 @@ func genC13(tier string, seed uint64, emit func(string)) {
 	emit("FILT n")
 	n := 5000
 	if tier == "thorough" {
-		n = 300000
+		n = 60000
 	}
 	for i := 0; i < n; i++ {
 		emit("FILT " + strings.Join(genTree(r, 1+r.intn(4)), " "))
